@@ -193,6 +193,55 @@ async fn frm_case(chunks: &str) -> String {
     format!("{} rest={}", out.join(","), c.verif_buffered())
 }
 
+/// SCK: the peer writes the chunks into the socket and closes; Connection::read_frame (cfg hook) is called until it reports the
+/// close or an error.  mode a: everything is written and the socket closed before the first read (the kernel coalesces the writes);
+/// mode b: after every chunk the reader takes what it can get (a read that would block is abandoned after 2 ms - read_buf is
+/// cancellation safe - so whichever way the timing falls the frames and the end reported are those of the stream).
+async fn sck_case(mode: &str, chunks: &str) -> String {
+    use tokio::io::AsyncWriteExt;
+    let mut pr = pair().await;
+    let rd = pr.rd.take().unwrap();
+    let Pair { _wr, peer, .. } = pr;
+    let mut peer = Some(peer);
+    let mut c = Connection::for_read_half(rd);
+    let mut out: Vec<String> = vec![];
+    let mut end: Option<&'static str> = None;
+    for ch in chunks.split(',').filter(|c| *c != "-" && !c.is_empty()) {
+        let p = peer.as_mut().unwrap();
+        p.write_all(&unhex(ch)).await.unwrap();
+        p.flush().await.unwrap();
+        if mode == "b" {
+            loop {
+                match tokio::time::timeout(std::time::Duration::from_millis(2), futures_catch(std::panic::AssertUnwindSafe(c.verif_read_frame()))).await {
+                    Err(_) => break,
+                    Ok(None) => { end = Some("PANIC"); break }
+                    Ok(Some(Err(_))) => { end = Some("E"); break }
+                    Ok(Some(Ok(None))) => { end = Some("EOF?"); break }
+                    Ok(Some(Ok(Some(m)))) => out.push(hex(m.as_ref())),
+                }
+            }
+            if end.is_some() { break }
+        }
+    }
+    // the close: a FIN behind the last octet (the socket itself is dropped - with linger 0, a reset - only after the reader is done)
+    peer.as_mut().unwrap().shutdown().await.unwrap();
+    let mut n = 0;
+    while end.is_none() {
+        n += 1;
+        if n > 100000 { end = Some("NONTERM"); break }
+        match tokio::time::timeout(std::time::Duration::from_secs(20), futures_catch(std::panic::AssertUnwindSafe(c.verif_read_frame()))).await {
+            Err(_) => end = Some("HANG"),
+            Ok(None) => end = Some("PANIC"),
+            Ok(Some(Err(_))) => end = Some("E"),
+            Ok(Some(Ok(None))) => end = Some("EOF"),
+            Ok(Some(Ok(Some(m)))) => out.push(hex(m.as_ref())),
+        }
+    }
+    drop(peer.take());
+    drop(_wr);
+    format!("{} end={}", out.join(","), end.unwrap())
+}
+
 pub fn run(args: &[String]) {
     let rt = tokio::runtime::Builder::new_current_thread().enable_all().build().unwrap();
     let stdout = std::io::stdout();
@@ -203,6 +252,7 @@ pub fn run(args: &[String]) {
         let s = match f[0] {
             "FSM" => rt.block_on(fsm_case(f[2] == "1", f[3].parse().unwrap(), f[4], f.get(5).unwrap_or(&""))),
             "FRM" => rt.block_on(frm_case(f[2])),
+            "SCK" => rt.block_on(sck_case(f[2], f[3])),
             "RDM" => {
                 let src = unhex(f[2]);
                 guard(move || {
